@@ -320,7 +320,7 @@ mod xen {
                 let probes: Vec<(&str, Box<dyn Fn() -> i32 + '_>)> = vec![
                     ("get_atomic_ref", Box::new(|| vs.get_atomic_ref::<AtomicU32>(0x10).map(|a| a.load(Ordering::SeqCst) as i32 & 0).unwrap_or(3))),
                     // SAFETY: nothing else uses the region
-                    ("aligned_as_ref", Box::new(|| unsafe { vs.aligned_as_ref::<u32>(0x10).map(|a| (*a as i32) & 0).unwrap_or(3) })),
+                    ("aligned_as_ref", Box::new(|| unsafe { vs.aligned_as_ref::<u32>(0x10).map(|a| (std::ptr::read_volatile(a as *const u32) as i32) & 0).unwrap_or(3) })),
                     ("aligned_as_mut", Box::new(|| unsafe { vs.aligned_as_mut::<u32>(0x10).map(|a| { *a = 5; 0 }).unwrap_or(3) })),
                 ];
                 for (name, f) in probes {
